@@ -383,7 +383,7 @@ Proof. split; vm_compute; reflexivity. Qed.
 ''')
 
 PROPS['C06'] = dict(
-    requires=['ConInd', 'RTFacts'],
+    requires=['ConInd', 'RTFacts', 'DepRT'],
     prelude='Local Open Scope nat_scope.',
     title='C06 - malformed, truncated or failing input is always reported as ConstructError',
     theorems=[
@@ -391,6 +391,8 @@ PROPS['C06'] = dict(
         ('TruncFacts', 'C06_truncated_rejected', 'The same on the public entry points: parse(build(v)[:k]) raises StreamError for every k < len.'),
         ('ErrFacts', 'parse_only_construct_errors', 'For EVERY construct of the closed sequential fragment (any depth) and EVERY input - any bytes, any position, truncated or not - parse returns a value or fails with a ConstructError subclass; no foreign exception comes out (the model\'s own meta outcomes apart).'),
         ('ErrFacts', 'C06_only_construct_errors', 'The same on the public entry point parse(data, **kw).'),
+        ('ErrDep', 'dep_parse_only_construct_errors', 'The same for DEPENDENT layouts (DepRT.dfrag: structs whose members are sized by the integer fields before them, any depth): the size expressions cannot fail - the field they name has been parsed, to an integer - and a negative size is a RangeError / PaddingError / StreamError.'),
+        ('ErrDep', 'C06_dependent_only_construct_errors', 'On the public entry point for the dependent fragment.'),
         ('StreamFacts', 'iread_discipline', 'A read either succeeds or is StreamError.'),
         ('StreamFacts', 'iread_exact', 'No value is produced from fewer bytes than requested: a successful read returns exactly the requested number of bytes.'),
         ('StreamFacts', 'iread_short', 'A read past the end of the data is StreamError (at any position).'),
@@ -458,6 +460,10 @@ PROPS['C16'] = dict(
         ('LazyFacts', 'lazy_parse_table_complete', 'A parsed lazy result has an offset for every member and one for the end, on the stream it was parsed from.'),
         ('LazyFacts', 'lazyarray_matches_array', 'Whenever the eager Array parses (element independent of _index, measured size = consumed size), LazyArray parses to the same final stream and every element, whenever first accessed, is the eager element.'),
         ('LazyFacts', 'lazystruct_matches_struct', 'Whenever the eager Struct parses (members that do not read the context, measured size = consumed size), LazyStruct parses to the same final stream and every member, whenever first accessed, is the value the eager parse gave it.'),
+        ('FragLazy', 'frag_member_ok', 'The member hypothesis holds for EVERY construct of the closed sequential fragment with no Prefixed below its top (by three inductions over the syntax: it never reads the context; its static size, when it has one, is what parsing consumes on every input; a size it does not have is a SizeofError).'),
+        ('FragLazy', 'prefixed_member_ok', 'And for a named Prefixed with an integer length field at the top of a member: the library measures its region (Renamed forwards _actualsize since fix F34).'),
+        ('FragLazy', 'C16_lazystruct_closed', 'Hence, with no side condition left: for every list of such members (a decidable predicate), every input and every context, whenever Struct parses, LazyStruct parses to the same final stream and every member, whenever first accessed, is the eager value.'),
+        ('FragLazy', 'frag_parse_size_exact', 'For the closed fragment without Prefixed: whenever sizeof answers n, every successful parse - of any input - consumes exactly n bytes. (False for Prefixed over a sized subcon on a longer region: that is how defect F34 and known finding K8 were found.)'),
         ('LazyFacts', 'member_ok_named_format', 'The member hypothesis holds for every named fixed-size Int*/Float*.'),
         ('LazyFacts', 'member_ok_named_varint', 'The member hypothesis holds for a named VarInt (not measurable: parsed at once and cached).'),
         ('LazyFacts', 'elem_ok_format', 'The element hypothesis holds for every fixed-size Int*/Float* (measured and skipped).'),
